@@ -1,0 +1,24 @@
+//go:build verif
+
+package auditlog
+
+// Contracts checked by /verif/gocv (comment-only file; see /verif/DESIGN.md).
+//
+// C27. What the entry hash is computed over contains every recorded field: the version, the timestamp, the type, the
+// previous hash and, for LOG entries, every field of LogDetails that exists in the entry's format version (the field
+// list is taken from the struct type, so a field added later is under the clause). Strings are written length-prefixed
+// (writeBytes), integers fixed-width, in an order fixed by the code, so distinct field values give distinct hash
+// inputs; that SHA-512 then gives distinct hashes is the cryptographic assumption.
+
+//@ func (*Entry).CalculateHash
+//@ mode effects
+//@ effect[C27:hash-covers-version] every sha512.Sum512(__) needs before binary.Write(_, _, $v) where $v.(uint16) == e.Version
+//@ effect[C27:hash-covers-timestamp] every sha512.Sum512(__) needs before binary.Write(_, _, $v) where $v.(int64) == e.Timestamp.UnixNano()
+//@ effect[C27:hash-covers-type] every sha512.Sum512(__) needs before writeString(_, $s) where $s == string(e.Type)
+//@ effect[C27:hash-covers-previous-hash] every sha512.Sum512(__) needs before buf.Write($b) where same($b, e.PreviousHash)
+//@ foreach F in stringfields(LogDetails)
+//@ effect[C27:hash-covers-@F] every sha512.Sum512(__) needs before writeString(_, $s)
+//@     where specIsLog(e) && e.Version >= specSinceVersion("@F") ==> $s == string(specLog(e).@F)
+//@ foreach F in intfields(LogDetails)
+//@ effect[C27:hash-covers-@F] every sha512.Sum512(__) needs before binary.Write(_, _, $v)
+//@     where specIsLog(e) && e.Version >= specSinceVersion("@F") ==> $v.(@@F) == specLog(e).@F
